@@ -445,14 +445,30 @@ func (g *gen) create(depth int) {
 	start := len(g.ops)
 	g.emit(c03Op{K: "create", A: a})
 	g.emit(c03Op{K: "setnonce", A: a, V: 1})
-	if g.r.Chance(1, 2) {
-		g.transfer()
+	// the endowment: evm.create transfers the value right after CreateAccount (the new object
+	// still shares the balance of a pre-funded previous object)
+	if g.r.Chance(3, 4) {
+		from := g.anyAddr()
+		if bal := g.balance(from) / wei; from != a && bal > 0 {
+			amt := int64(g.r.Range(1, int(min64(bal, 40)))) * wei
+			g.emit(c03Op{K: "sub", A: from, V: amt})
+			g.emit(c03Op{K: "add", A: a, V: amt})
+		}
+	}
+	if g.r.Chance(1, 3) {
+		// the init code sends value on
+		to := g.anyAddr()
+		if bal := g.balance(a) / wei; to != a && bal > 0 {
+			amt := int64(g.r.Range(1, int(min64(bal, 20)))) * wei
+			g.emit(c03Op{K: "sub", A: a, V: amt})
+			g.emit(c03Op{K: "add", A: to, V: amt})
+		}
 	}
 	n := g.r.Range(0, 3)
 	for i := 0; i < n; i++ {
 		g.mutate(depth + 1)
 	}
-	if g.r.Chance(1, 4) {
+	if g.r.Chance(1, 3) {
 		g.revertTop()
 		g.probe(start)
 		return
@@ -527,7 +543,7 @@ func (g *gen) sstore() {
 }
 
 func (g *gen) mutate(depth int) {
-	switch g.r.Pick(5, 7, 2, 2, 2, 2, 4, 3, 2, 1) {
+	switch g.r.Pick(5, 7, 2, 2, 2, 2, 4, 3, 3, 1) {
 	case 0:
 		g.transfer()
 	case 1:
@@ -563,6 +579,8 @@ func (g *gen) mutate(depth int) {
 	case 8:
 		if depth < 4 {
 			g.create(depth)
+		} else {
+			g.read()
 		}
 	case 9:
 		a := g.anyAddr()
@@ -604,7 +622,7 @@ func (g *gen) probe(start int) {
 		case "suicide":
 			cands = append(cands, c03Op{K: "suicided", A: o.A}, c03Op{K: "bal", A: o.A})
 		case "create":
-			cands = append(cands, c03Op{K: "empty", A: o.A}, c03Op{K: "nonce", A: o.A})
+			cands = append(cands, c03Op{K: "empty", A: o.A}, c03Op{K: "nonce", A: o.A}, c03Op{K: "bal", A: o.A})
 		}
 	}
 	for i := 0; i < 4 && len(cands) > 0; i++ {
@@ -801,6 +819,16 @@ func openers() [][][]c03Op {
 				{K: "suicided", A: 2}, {K: "bal", A: 2}, {K: "bal", A: 0}},
 			{{K: "bal", A: 2}, {K: "add", A: 0, V: 7 * w}, {K: "suicide", A: 2}, {K: "add", A: 2, V: 1 * w}, {K: "state", A: 2, Key: 1}},
 			{{K: "exist", A: 2}, {K: "empty", A: 2}, {K: "state", A: 2, Key: 1}, {K: "codehash", A: 2}, {K: "bal", A: 0}},
+		},
+		// CREATE onto a pre-funded address: the new object starts with the previous object's balance;
+		// the endowment must not leak into the previous object when the creation is reverted
+		{
+			{{K: "add", A: 0, V: 50 * w}, {K: "add", A: 3, V: 3 * w}},
+			{{K: "snap"}, {K: "create", A: 3}, {K: "setnonce", A: 3, V: 1}, {K: "sub", A: 0, V: 7 * w}, {K: "add", A: 3, V: 7 * w}, {K: "bal", A: 3},
+				{K: "revert", V: 0}, {K: "bal", A: 3}, {K: "bal", A: 0}},
+			{{K: "add", A: 3, V: 2 * w}, {K: "snap"}, {K: "create", A: 3}, {K: "setnonce", A: 3, V: 1}, {K: "sub", A: 0, V: 7 * w}, {K: "add", A: 3, V: 7 * w},
+				{K: "snap"}, {K: "sub", A: 3, V: 1 * w}, {K: "add", A: 0, V: 1 * w}, {K: "revert", V: 1}, {K: "setcode", A: 3, V: 2}, {K: "bal", A: 3}},
+			{{K: "bal", A: 3}, {K: "bal", A: 0}},
 		},
 		// refund, logs, access list across reverts; code set and reverted
 		{
